@@ -99,7 +99,7 @@ func c08conic(c *Ctx) {
 				if ok && m.Op == token.MUL {
 					for _, f := range []ast.Expr{m.X, m.Y} {
 						if o := objOf(info, f); o != nil && local(o) {
-							if isSignVar(info, sc, lit, o, coneN) {
+							if isSignVar(info, sc, lit, o, coneN, call.Pos()) {
 								signVars = append(signVars, o)
 							}
 						}
@@ -125,45 +125,123 @@ func c08conic(c *Ctx) {
 	}
 }
 
-// isSignVar: every definition of o inside the closure is the constant +1 or −1, assigned in
-// the two arms of an if/else on the sign of the cone constant (+1 in the N ≥ 0 / N > 0 arm).
-func isSignVar(info *types.Info, sc *fnScope, lit *ast.FuncLit, o, coneN types.Object) bool {
-	ok := false
+// isSignVar: inside the closure o only ever holds the constants +1 and −1, and after all of its
+// definitions it is +1 when the cone constant is positive and −1 when it is negative.  The
+// definitions are replayed in source order for the two scenarios N > 0 and N < 0; each may be
+// unconditional or sit under (possibly nested, negated, else-side) tests of N against zero.
+func isSignVar(info *types.Info, sc *fnScope, lit *ast.FuncLit, o, coneN types.Object, use token.Pos) bool {
+	// truth of a condition in scenario sign (+1: N > 0, −1: N < 0); ok=false: not a test of N's sign
+	var truth func(e ast.Expr, sign int) (bool, bool)
+	truth = func(e ast.Expr, sign int) (bool, bool) {
+		e = unparen(e)
+		if u, ok := e.(*ast.UnaryExpr); ok && u.Op == token.NOT {
+			t, ok := truth(u.X, sign)
+			return !t, ok
+		}
+		b, ok := e.(*ast.BinaryExpr)
+		if !ok {
+			return false, false
+		}
+		op := b.Op
+		x, y := b.X, b.Y
+		if objOf(info, y) == coneN {
+			// 0 < N  ≡  N > 0
+			x, y = y, x
+			op = map[token.Token]token.Token{token.LSS: token.GTR, token.GTR: token.LSS, token.LEQ: token.GEQ, token.GEQ: token.LEQ}[op]
+		}
+		if objOf(info, x) != coneN {
+			return false, false
+		}
+		if v := constOf(info, y); v == nil || (v.String() != "0" && v.String() != "0.0") {
+			return false, false
+		}
+		switch op {
+		case token.GTR, token.GEQ:
+			return sign > 0, true
+		case token.LSS, token.LEQ:
+			return sign < 0, true
+		}
+		return false, false
+	}
+	type def struct {
+		node ast.Node
+		val  string
+	}
+	var defs []def
 	ast.Inspect(lit.Body, func(n ast.Node) bool {
-		is, isIf := n.(*ast.IfStmt)
-		if !isIf || is.Else == nil {
-			return true
-		}
-		b, isB := unparen(is.Cond).(*ast.BinaryExpr)
-		if !isB || objOf(info, b.X) != coneN || !(b.Op == token.GEQ || b.Op == token.GTR) {
-			return true
-		}
-		if v := constOf(info, b.Y); v == nil || v.String() != "0" {
-			return true
-		}
-		els, isBlk := is.Else.(*ast.BlockStmt)
-		if !isBlk {
-			return true
-		}
-		val := func(blk *ast.BlockStmt) string {
-			out := ""
-			for _, st := range blk.List {
-				if as, ok := st.(*ast.AssignStmt); ok && len(as.Lhs) == 1 && len(as.Rhs) == 1 && objOf(info, as.Lhs[0]) == o {
-					if v := constOf(info, as.Rhs[0]); v != nil {
-						out = v.String()
-					} else {
-						out = "?"
+		switch x := n.(type) {
+		case *ast.AssignStmt:
+			for i, l := range x.Lhs {
+				if objOf(info, l) == o {
+					v := "?"
+					if i < len(x.Rhs) && len(x.Lhs) == len(x.Rhs) && x.Tok != token.ADD_ASSIGN && x.Tok != token.MUL_ASSIGN {
+						if cv := constOf(info, x.Rhs[i]); cv != nil {
+							v = cv.String()
+						}
 					}
+					defs = append(defs, def{x, v})
 				}
 			}
-			return out
-		}
-		if val(is.Body) == "1" && val(els) == "-1" {
-			ok = true
+		case *ast.ValueSpec:
+			for i, nm := range x.Names {
+				if info.Defs[nm] == o {
+					v := "unset"
+					if i < len(x.Values) {
+						v = "?"
+						if cv := constOf(info, x.Values[i]); cv != nil {
+							v = cv.String()
+						}
+					}
+					defs = append(defs, def{x, v})
+				}
+			}
 		}
 		return true
 	})
-	return ok
+	// only what reaches the use: definitions after it (the variable may be reused) do not count
+	var before []def
+	for _, d := range defs {
+		if d.node.Pos() < use {
+			before = append(before, d)
+		}
+	}
+	defs = before
+	if len(defs) == 0 {
+		return false
+	}
+	final := map[int]string{}
+	for _, sign := range []int{1, -1} {
+		cur := "unset"
+		for _, d := range defs {
+			reached := true
+			for _, anc := range enclosing(lit.Body, d.node) {
+				is, ok := anc.(*ast.IfStmt)
+				if !ok {
+					if _, isLoop := anc.(*ast.ForStmt); isLoop {
+						return false
+					}
+					continue
+				}
+				if containsNode(is.Cond, d.node) || (is.Init != nil && containsNode(is.Init, d.node)) {
+					continue
+				}
+				t, ok := truth(is.Cond, sign)
+				if !ok {
+					return false // set under a condition that is not the sign of the cone constant
+				}
+				if containsNode(is.Body, d.node) != t {
+					reached = false
+				}
+			}
+			if reached {
+				cur = d.val
+			}
+		}
+		final[sign] = cur
+	}
+	one := func(v string) bool { return v == "1" || v == "1.0" }
+	minusOne := func(v string) bool { return v == "-1" || v == "-1.0" }
+	return one(final[1]) && minusOne(final[-1])
 }
 
 func callsAtan2(c *Ctx, info *types.Info, h *types.Func) bool {
